@@ -71,6 +71,7 @@ def run(ck):
         part_a(ck, r, tmp, 400 if quick else 5000)
         part_env(ck, tmp)
         part_dag(ck, r, tmp, 25 if quick else 300)
+        part_symlink(ck, tmp)
     finally:
         shutil.rmtree(tmp, ignore_errors=True)
 
@@ -346,6 +347,45 @@ Eval vm_compute in map (fun c => match parse_d (fst c) with Some (_, l) => if li
         ck.obligation("correspondence:python dialect reader==C17/Model.parse_d on emitted depfiles", ok, "%d depfiles" % len(pairs))
         if not ok:
             ck.broken("correspondence", "parse_d_py vs Model.parse_d", out[-1500:])
+
+
+def part_symlink(ck, tmp):
+    """paths with `..` after a symlinked directory: the OS resolves the link first, so the file read is not the one a lexical
+    clean-up of the path names; reported dependencies are compared after realpath, against what was really read"""
+    exe = os.path.join(vlib.TARGET, "debug", "bgv")
+    for variant in ("quote", "angle-I"):
+        root = os.path.join(tmp, "sym_" + variant)
+        proj, real = os.path.join(root, "proj"), os.path.join(root, "real")
+        os.makedirs(os.path.join(proj, "inc"))
+        os.makedirs(real)
+        os.symlink(os.path.join("..", "real"), os.path.join(proj, "link"))
+        open(os.path.join(root, "config.h"), "w").write("#define WHICH_CONFIG 1\nstruct real_config { int a; };\n")
+        open(os.path.join(proj, "config.h"), "w").write("#define WHICH_CONFIG 2\nstruct decoy_config { int b; };\n")
+        open(os.path.join(real, "api.h"), "w").write('#include "../config.h"\nint api(struct real_config *);\n')
+        open(os.path.join(proj, "local.h"), "w").write("struct local { int l; };\n")
+        inc_api = '#include "link/api.h"' if variant == "quote" else "#include <api.h>"
+        open(os.path.join(proj, "main.h"), "w").write(inc_api + '\n#include "./inc/../local.h"\nstruct main_s { struct local l; };\n')
+        cargs = ["-I" + os.path.join(proj, "link")] if variant != "quote" else []
+        dep = os.path.join(proj, "out.d")
+        rc, out, err = sh2([exe, "cargocb", enc(dep), "none", "1", enc("main.h")] + [enc(a) for a in cargs], cwd=proj, timeout=120)
+        ck.evaluations += 1
+        ck.nontrivial.add(("symlink", variant))
+        data = {"layout": "proj/main.h -> %s -> real/api.h -> \"../config.h\" (= <root>/config.h; proj/config.h is a decoy); proj/link -> ../real" % inc_api, "clang_args": cargs, "stdout": out[-800:]}
+        if "\nOK " not in "\n" + out:
+            ck.violation("C17-dag-generation-failed", "bindgen failed on the symlink layout", dict(data, stderr=err[-400:]))
+            continue
+        if "real_config" not in out and "OK" in out:
+            pass
+        rp = lambda x: os.path.realpath(x if os.path.isabs(x) else os.path.join(proj, x))
+        truth = {rp(os.path.join(proj, "main.h")), rp(os.path.join(real, "api.h")), rp(os.path.join(root, "config.h")), rp(os.path.join(proj, "local.h"))}
+        cbs = {rp(dec(x)) for x in re.findall(r"^CB (?:header_file|include_file) (.*)$", out, re.M)}
+        deptext = open(dep, encoding="utf-8", errors="surrogateescape").read() if os.path.exists(dep) else ""
+        dset = {rp(p) for p in parse_d_py(deptext)[1]}
+        data.update({"read": sorted(truth), "callbacks(realpath)": sorted(cbs), "depfile(realpath)": sorted(dset), "depfile": deptext})
+        for label, got in (("callbacks", cbs), ("depfile", dset)):
+            if got != truth:
+                missing, extra = truth - got, got - truth
+                ck.violation("C17-%s-%s" % (label, "missing" if missing else "extra"), "%s differ from the files read (after realpath): missing %s extra %s" % (label, sorted(missing), sorted(extra)), data)
 
 
 def parse_d_py(text):
